@@ -138,8 +138,12 @@ def start_proc(binary, unit, work, tier, seed, shard, nshards, replay=None, extr
         "VERIF_KNOWN": os.path.join(VERIF, "known_findings.json"), "VERIF_CORPUS": os.path.join(VERIF, "corpus"),
         "VERIF_REPO": REPO, "VERIF_DIR": VERIF,
     })
+    # thorough: the per-test case counts are multiplied by the unit's thorough_scale (default 3: the whole tier
+    # then takes roughly two to three hours on 16 cores) and divided among the shards
+    scale = (unit.get("thorough_scale", 3.0) if tier == "thorough" and not replay else 1.0) * unit.get("scale", 1.0) / max(1, nshards)
+    if scale != 1.0:
+        env["VERIF_SCALE"] = "%.6f" % scale
     if nshards > 1:
-        env["VERIF_SCALE"] = "%.6f" % (1.0 / nshards)
         if shard > 0:
             env["VERIF_CORPUS"] = os.path.join(work, "no-corpus")  # corpus replays once, in shard 0
     if replay:
@@ -538,7 +542,7 @@ def setup():
     t0 = time.time()
     for pid, cfg in CHECKS.items():
         for u in cfg["units"]:
-            key = (u["pkg"], bool(u.get("race")), u.get("overlay"))
+            key = (u["pkg"], bool(u.get("race")), u.get("overlay"), u.get("tags"), bool(u.get("instrument")))
             if key in seen:
                 continue
             seen.add(key)
